@@ -181,7 +181,9 @@ def _integration_case(world):
         execs += 1
         bump("stops.integration.iter")
         byk[k] = S
-        exp = {"IterationLimit"} if k < L else {R.status}
+        # with the budget equal to the natural length both endings are legitimate: the reference's own status, or
+        # IterationLimit when the reference only noticed its natural end at the top of the next iteration
+        exp = {"IterationLimit"} if k < L else {R.status, "IterationLimit"}
         viol += check_state(S, k, sub, dict(ctx0, t=k), exp)
         if k < L:
             bump("nontrivial")
